@@ -119,10 +119,12 @@ pub fn nc_values() -> Vec<(String, NcSpec)> {
         ("permitted v6/64".into(), p(SubtreeSpec::Ip(cidr6.clone()))),
         ("excluded v6/64".into(), x(SubtreeSpec::Ip(cidr6.clone()))),
         ("permitted+excluded".into(), NcSpec { permitted: vec![SubtreeSpec::Dns("example.com".into())], excluded: vec![SubtreeSpec::Ip(cidr4.clone())] }),
-        ("two permitted".into(), NcSpec { permitted: vec![SubtreeSpec::Dns("example.com".into()), SubtreeSpec::Ip(cidr6)], excluded: vec![] }),
+        ("two permitted".into(), NcSpec { permitted: vec![SubtreeSpec::Dns("example.com".into()), SubtreeSpec::Ip(cidr6.clone())], excluded: vec![] }),
         // (appended: other code addresses earlier values by position)
         ("permitted dns with leading dot".into(), p(SubtreeSpec::Dns(".example.com".into()))),
         ("excluded dns with leading dot + rfc822 with leading dot".into(), NcSpec { permitted: vec![], excluded: vec![SubtreeSpec::Dns(".bad.example.com".into()), SubtreeSpec::Email(".example.com".into())] }),
+        ("the same dns subtree permitted and excluded + permitted ip".into(), NcSpec { permitted: vec![SubtreeSpec::Dns("corp.example".into()), SubtreeSpec::Ip(cidr4.clone())], excluded: vec![SubtreeSpec::Dns("corp.example".into())] }),
+        ("the same ip subtree permitted and excluded, excluded first in time".into(), NcSpec { permitted: vec![SubtreeSpec::Ip(cidr6.clone())], excluded: vec![SubtreeSpec::Ip(cidr6.clone()), SubtreeSpec::Dns("x.example".into())] }),
     ]
 }
 
